@@ -19,6 +19,7 @@
 
 #include <cmath>
 #include <memory>
+#include <unordered_map>
 #include <sstream>
 #include <stdexcept>
 #include <type_traits>
@@ -34,6 +35,9 @@ struct IObj {
     virtual void moveAssignFrom(IObj &other) = 0;        // move assignment   (the source gets its value back)
     virtual void swapWith(IObj &other) = 0;              // std::swap
     virtual void selfAssign() = 0;                       // a = a
+    // index embedding: the specification's vertices 0..k-1 are the real vertices e[0] < ... < e[k-1]
+    // of a much larger graph (all other vertices stay isolated); calls and projection are translated
+    virtual void setEmbedding(const std::vector<unsigned> &e) = 0;
     virtual std::string family() const = 0; // e.g. "LabeledDirectedGraph<int>"
     // returns "ok", "out_of_range", "invalid_argument" or "other:<what>"
     virtual std::string apply(const json &call) = 0;
@@ -188,6 +192,9 @@ template <class G> class Obj : public IObj {
         c->sawHuge = sawHuge;
         return std::unique_ptr<IObj>(c);
     }
+    std::vector<VertexIndex> embed;
+    void setEmbedding(const std::vector<unsigned> &e) override { embed.assign(e.begin(), e.end()); }
+    VertexIndex realV(VertexIndex v) const { return (!embed.empty() && v < embed.size()) ? embed[v] : v; }
     std::unique_ptr<IObj> moveClone() override {
         auto *c = new Obj<G>(std::move(g), variant, 0);
         c->sawHuge = sawHuge;
@@ -274,14 +281,15 @@ template <class G> class Obj : public IObj {
         const std::string op = c.at("op");
         if (variant && c.contains("w") && c.at("w").get<int>() == 5)
             sawHuge = true;
-        auto I_ = [&] { return vtx(c.at("i")); };
-        auto J_ = [&] { return vtx(c.at("j")); };
-        auto V_ = [&] { return vtx(c.at("v")); };
+        auto I_ = [&] { return realV(vtx(c.at("i"))); };
+        auto J_ = [&] { return realV(vtx(c.at("j"))); };
+        auto V_ = [&] { return realV(vtx(c.at("v"))); };
         auto F_ = [&] { return c.at("f").get<bool>(); };
         return classify([&] {
-            if (op == "resize")
-                g.resize(c.at("k").get<size_t>());
-            else if (op == "relocate")
+            if (op == "resize") {
+                size_t k = c.at("k").get<size_t>();
+                g.resize(!embed.empty() && k == embed.size() ? (size_t)embed.back() + 1 : k);
+            } else if (op == "relocate")
                 relocate(c.at("how").get<std::string>());
             else if (op == "clearEdges")
                 g.clearEdges();
@@ -463,13 +471,24 @@ template <class G> class Obj : public IObj {
     // an observer that throws on a valid graph is reported, not propagated
     json project() const override {
         try {
-            return projectImpl();
+            return embed.empty() ? projectImpl() : projectEmbedded();
         } catch (const std::exception &e) {
             return json{{"inconsistent", json{{"threw", std::string("an observer threw: ") + e.what()}}}};
         }
     }
     json enc() const override {
         try {
+            if (!embed.empty()) {
+                json o = projectEmbedded();
+                json e = {{"n", o["n"]}, {"adj", o["nbr"]}, {"lab", o["lab"]}, {"en", o["en"]}, {"tot", o["tot"]}};
+                if (!I::directed)
+                    for (size_t a = 0; a < e["lab"].size(); ++a)
+                        for (size_t b = 0; b < a; ++b)
+                            e["lab"][a][b] = NONE_L;
+                if (o.contains("inconsistent"))
+                    e["inconsistent"] = o["inconsistent"];
+                return e;
+            }
             return encImpl();
         } catch (const std::exception &e) {
             return json{{"inconsistent", json{{"threw", std::string("an observer threw: ") + e.what()}}}};
@@ -502,6 +521,15 @@ template <class G> class Obj : public IObj {
             }
             if (it != g.end())
                 bad += "[iter] vertex iteration end; ";
+            // == and != in either operand order
+            size_t cnt = 0;
+            for (auto jt = g.begin(); g.end() != jt; ++jt)
+                ++cnt;
+            if (cnt != n)
+                bad += "[iter] vertex loop written `end() != it` visits another number of vertices; ";
+            if ((g.begin() != g.end()) != (g.end() != g.begin()) || (g.begin() == g.end()) != (g.end() == g.begin()) ||
+                (g.begin() == g.end()) == (g.begin() != g.end()) || (g.begin() == g.end()) != (n == 0))
+                bad += "[iter] vertex iterator == / != are not symmetric negations; ";
         }
 
         json has = zeroMat(n), lab = zeroMat(n), labd = zeroMat(n);
@@ -584,6 +612,14 @@ template <class G> class Obj : public IObj {
             bool bne = g.edges().begin() != g.edges().end();
             if (be == bne)
                 bad += "[iter] edge iterator == and != agree; ";
+            {
+                auto ed = g.edges();
+                size_t cnt = 0;
+                for (auto it = ed.begin(); ed.end() != it; ++it)
+                    ++cnt;
+                if (cnt != s1.size() || (ed.end() == ed.begin()) != be || (ed.end() != ed.begin()) != bne)
+                    bad += "[iter] edge iterator comparisons depend on the operand order; ";
+            }
             o["noedge"] = be ? 1 : 0;
         }
 
@@ -695,6 +731,135 @@ template <class G> class Obj : public IObj {
         } else
             o["tot"] = 0;
 
+        if (!bad.empty())
+            o["inconsistent"] = groupByTopic(bad);
+        return o;
+    }
+
+    // The projection restricted to the embedded vertices (everything else must be isolated).  The
+    // observers that return n x n matrices of the whole graph are left out.
+    json projectEmbedded() const {
+        std::string bad;
+        json o = json::object();
+        const size_t k = g.getSize() == 0 ? 0 : embed.size();
+        if (g.getSize() != 0 && g.getSize() != (size_t)embed.back() + 1)
+            bad += "[range] size of the embedded graph; ";
+        std::unordered_map<VertexIndex, size_t> inv;
+        for (size_t a = 0; a < k; ++a)
+            inv[embed[a]] = a;
+        o["n"] = k;
+        o["en"] = g.getEdgeNumber();
+        json nbr = zeroMat(k), has = zeroMat(k), lab = zeroMat(k), labd = zeroMat(k), ec = zeroMat(k);
+        json hasl = json::array({zeroMat(k), zeroMat(k), zeroMat(k)});
+        for (size_t a = 0; a < k; ++a) {
+            for (VertexIndex w : g.getOutNeighbours(embed[a])) {
+                auto it = inv.find(w);
+                if (it == inv.end())
+                    bad += "[range] neighbour " + std::to_string(w) + " of " + std::to_string(embed[a]) + " is not one of the vertices used; ";
+                else {
+                    const size_t b2 = it->second;
+                    nbr[a][b2] = nbr[a][b2].template get<int>() + 1;
+                }
+            }
+            for (size_t b = 0; b < k; ++b) {
+                const VertexIndex i = embed[a], j = embed[b];
+                has[a][b] = g.hasEdge(i, j) ? 1 : 0;
+                lab[a][b] = labelThrowing(i, j, bad);
+                labd[a][b] = nolabel ? 0 : Lab<G>::dec(baseView(g).getEdgeLabel(i, j, false), variant);
+                for (int l = 0; l < 3; ++l)
+                    hasl[l][a][b] = baseView(g).hasEdge(i, j, Lab<G>::enc(l, variant)) ? 1 : 0;
+            }
+        }
+        o["nbr"] = nbr;
+        o["has"] = has;
+        o["lab"] = lab;
+        o["labd"] = labd;
+        o["hasl"] = hasl;
+        size_t yielded = 0, post = 0;
+        for (auto e : g.edges()) {
+            ++yielded;
+            auto x = inv.find(e.first), y = inv.find(e.second);
+            if (x == inv.end() || y == inv.end())
+                bad += "[range] edges() yields a vertex that is not one of the vertices used; ";
+            else {
+                const size_t xa = x->second, yb = y->second;
+                ec[xa][yb] = ec[xa][yb].template get<int>() + 1;
+            }
+        }
+        {
+            auto ed = g.edges();
+            for (auto it = ed.begin(); it != ed.end(); it++)
+                ++post;
+        }
+        if (post != yielded)
+            bad += "[iter] edge traversals disagree; ";
+        for (size_t a = 0; a < k; ++a)
+            for (size_t b = 0; b < k; ++b)
+                if (ec[a][b].get<int>() != ((I::directed || embed[a] <= embed[b]) ? nbr[a][b].get<int>() : 0)) {
+                    bad += "[iter] edges() does not enumerate the neighbour lists exactly once; ";
+                    a = b = k;
+                }
+        o["edges"] = ec;
+        o["noedge"] = (g.edges().begin() == g.edges().end()) ? 1 : 0;
+        // every vertex that is not used stays isolated
+        {
+            size_t others = 0;
+            for (VertexIndex v = 0; v < g.getSize(); ++v)
+                if (!inv.count(v))
+                    others += g.getOutNeighbours(v).size();
+            if (others)
+                bad += "[range] a vertex that no call named has neighbours; ";
+        }
+        if constexpr (I::directed) {
+            json od = json::array(), id = json::array();
+            auto ods = g.getOutDegrees();
+            auto ids = g.getInDegrees();
+            if (ods.size() != g.getSize() || ids.size() != g.getSize())
+                bad += "[degree] degree vector size; ";
+            for (size_t a = 0; a < k; ++a) {
+                const VertexIndex v = embed[a];
+                od.push_back(unit(g.getOutDegree(v), bad));
+                id.push_back(unit(g.getInDegree(v), bad));
+                if (v < ods.size() && ods[v] != g.getOutDegree(v))
+                    bad += "[degree] getOutDegrees != getOutDegree; ";
+                if (v < ids.size() && ids[v] != g.getInDegree(v))
+                    bad += "[degree] getInDegrees != getInDegree; ";
+            }
+            o["outdeg"] = od;
+            o["indeg"] = id;
+        } else {
+            json d2 = json::array(), d1 = json::array();
+            auto v2 = g.getDegrees(), v1 = g.getDegrees(false);
+            if (v2.size() != g.getSize() || v1.size() != g.getSize())
+                bad += "[degree] degree vector size; ";
+            for (size_t a = 0; a < k; ++a) {
+                const VertexIndex v = embed[a];
+                d2.push_back(unit(g.getDegree(v), bad));
+                d1.push_back(unit(g.getDegree(v, false), bad));
+                if (v < v2.size() && (v2[v] != g.getDegree(v, true) || v1[v] != g.getDegree(v, false)))
+                    bad += "[degree] getDegrees != getDegree; ";
+            }
+            o["deg2"] = d2;
+            o["deg1"] = d1;
+        }
+        if constexpr (I::kind == KindTag::Multi) {
+            o["tot"] = unit(g.getTotalEdgeNumber(), bad);
+            json mu = zeroMat(k);
+            for (size_t a = 0; a < k; ++a)
+                for (size_t b = 0; b < k; ++b)
+                    mu[a][b] = Lab<G>::dec(g.getEdgeMultiplicity(embed[a], embed[b]), variant);
+            o["mult"] = mu;
+        } else if constexpr (I::kind == KindTag::Weighted) {
+            long double t = g.getTotalWeight();
+            long double r = std::nearbyint(t);
+            if (variant || r != t) {
+                if (!variant)
+                    bad += "[total] total weight not integral; ";
+                o["tot"] = 0;
+            } else
+                o["tot"] = (long long)r;
+        } else
+            o["tot"] = 0;
         if (!bad.empty())
             o["inconsistent"] = groupByTopic(bad);
         return o;
